@@ -250,6 +250,47 @@ pub fn run(name: &str) -> Option<bool> {
             probe!(|r: &mut UperReader<Bits>| r.read_sequence_of::<Sz<5, -1, false>, Integer<u64, crate::decode::Nc<0, 0, false, false, false>>>());
             bad
         }
+        // C01 candidates: round trip of values the property explicitly includes
+        "rt_seqof_16k" => {
+            use crate::versions::kf::BigList;
+            use asn1rs::prelude::*;
+            [16383usize, 16384, 16385, 32768, 65536, 70000].iter().any(|n| rt_fails(&BigList((0..*n).map(|i| i % 3 == 0).collect())))
+        }
+        "rt_ia5_16k" => {
+            use crate::versions::kf::BigStr;
+            use asn1rs::prelude::*;
+            [16383usize, 16384, 16385, 65536, 70000].iter().any(|n| rt_fails(&BigStr("abcdefgh".repeat(n / 8 + 1)[..*n].to_string())))
+        }
+        "rt_default_addition" => {
+            use crate::versions::kf::DefAdd;
+            rt_fails(&DefAdd { a: true, d: 9 }) || rt_fails(&DefAdd { a: false, d: 5 })
+        }
+        "rt_open_type_16k" => {
+            use crate::versions::kf::BigAdd;
+            rt_fails(&BigAdd { a: true, o: Some(vec![0x5A; 20000]) })
+        }
+        "proto_choice_null" => crate::proto::probe_choice_null(),
         _ => return None,
     })
+}
+
+/// true = the round trip (encode Ok => decode gives the same value and consumes exactly the produced bits) FAILS
+fn rt_fails<T: asn1rs::descriptor::Writable + asn1rs::descriptor::Readable + PartialEq + std::fmt::Debug>(v: &T) -> bool {
+    use asn1rs::prelude::*;
+    let r = std::panic::catch_unwind(std::panic::AssertUnwindSafe(|| {
+        let mut w = UperWriter::default();
+        if w.write(v).is_err() {
+            return false; // the property only speaks about successful encodings
+        }
+        let (bits, bytes) = (w.bit_len(), w.byte_content().to_vec());
+        let mut r = UperReader::from((&bytes[..], bits));
+        match r.read::<T>() {
+            Ok(back) => {
+                if std::env::var_os("VERIF_PANIC_MSG").is_some() && (&back != v || r.bits_remaining() != 0) { eprintln!("decoded differently, {} bits left of {bits}", r.bits_remaining()); }
+                &back != v || r.bits_remaining() != 0
+            }
+            Err(e) => { if std::env::var_os("VERIF_PANIC_MSG").is_some() { eprintln!("decode error {e:?}"); } true }
+        }
+    }));
+    r.unwrap_or(true)
 }
